@@ -431,12 +431,12 @@ def run_property(pid, tier, queries, level='model_checking', assumptions=(), tru
         if r['status'] in ('inconclusive', 'error'):
             inconclusive.append(r)
         for v in r['violations']:
-            key = '%s:%d' % (r['query'], v['assert_id'])
+            key = '%s:%s' % (r['query'], v['assert_id'])
             if key in known:
                 known_hits.append((key, known[key]))
                 continue
             os.makedirs(replay_dir, exist_ok=True)
-            dst = os.path.join(replay_dir, '%s_%d.in' % (re.sub(r'\W', '_', r['query']), v['assert_id']))
+            dst = os.path.join(replay_dir, '%s_%s.in' % (re.sub(r'\W', '_', r['query']), re.sub(r'\W', '_', str(v['assert_id']))[:40]))
             shutil.copy(v['replay_file'], dst)
             with open(dst, 'a') as f:
                 f.write('# replay: python3 runner.py %s --replay %s --query %s\n' % (pid, dst, r['query']))
